@@ -51,7 +51,8 @@ def sym_descriptor_state(c, g, name, allow_empty=True, with_weight=True, list_le
     id '' or any integer >= 0, bond order one of the five codes the parser can assign.
     Returns (bd, info)."""
     BD = g.BondDescriptor
-    bd = BD.__new__(BD)
+    # built by the real constructor (so that every attribute the class keeps exists), then moved into the symbolic state
+    bd = BD("[]", 0, "", 0)
     kind = c.fresh_int(f"{name}_kind", 0 if allow_empty else 1, 2).__index__()  # 0:[] 1:no id 2:id
     bd._raw_text = None
     bd.descriptor_num = 0
